@@ -234,3 +234,43 @@ Fixpoint connect_dots (lhs rhs : list dpos) : option (list (N * N)) :=
 
 Definition assoc_of (m : list (N * N)) (i : N) : N :=
   match assoc i m with Some j => j | None => 0 end.
+
+(* ---- which "..." take part in the association ----
+   Only the elisions the compilers record (matcherCompiler.dots / replacerCompiler.dots):
+   items of expression, statement and field lists, the condition of "for ... {", and the
+   implicit elisions around a statement-list pattern.  A pgo.Dots anywhere else (a type
+   assertion "x.(...)", an array length "[...]T") is compiled as an ordinary node. *)
+Fixpoint elisions (p : val) : list N :=
+  match p with
+  | Ptr tp ps =>
+      match ps with
+      | Struct _ [_; Nil _; Iface _ c; Nil _; body] =>
+          match (if N.eqb tp T_P_ast_ForStmt then is_dots c else None) with
+          | Some i => i :: elisions body
+          | None => elisions ps
+          end
+      | _ => elisions ps
+      end
+  | Iface _ ps => elisions ps
+  | Struct _ ps => (fix go (l : list val) : list N := match l with [] => [] | x :: l' => elisions x ++ go l' end) ps
+  | Slice tp ps =>
+      (fix go (l : list val) : list N :=
+         match l with
+         | [] => []
+         | x :: l' => match dots_item tp x with Some i => [i] | None => elisions x end ++ go l'
+         end) ps
+  | _ => []
+  end.
+
+Definition elisions_n (p : npat) : list N :=
+  match p with
+  | PNode v => elisions v
+  | PStmts s e vs => s :: e :: elisions (Slice T_S_ast_Stmt vs)
+  end.
+
+Definition recorded (p : npat) (ds : list dpos) : list dpos :=
+  filter (fun d => existsb (N.eqb (dp_id d)) (elisions_n p)) ds.
+
+(* compileChange: connectDots over the recorded elisions of the two sides *)
+Definition change_assoc (minus plus : npat) (mdots pdots : list dpos) : option (list (N * N)) :=
+  connect_dots (recorded minus mdots) (recorded plus pdots).
